@@ -73,6 +73,9 @@ func addPathToTree(path string, value *configapi.TypedValue, nodeif *interface{}
 		refinePath = fmt.Sprintf("/%s", refinePath)
 
 		brktIdx := strings.Index(pathelems[0], bracketsq)
+		if brktIdx < 0 {
+			return fmt.Errorf("malformed list element %s in %s", pathelems[0], path)
+		}
 		listName := pathelems[0][:brktIdx]
 
 		// Build up a map of keyName to keyVal
@@ -82,6 +85,9 @@ func addPathToTree(path string, value *configapi.TypedValue, nodeif *interface{}
 			brktIdx := strings.Index(keyString, bracketsq)
 			eqIdx := strings.Index(keyString, equals)
 			brktIdx2 := strings.Index(keyString, brktclose)
+			if brktIdx < 0 || eqIdx < brktIdx || brktIdx2 < eqIdx {
+				return fmt.Errorf("malformed list key %s in %s", keyString, path)
+			}
 
 			keyName := keyString[brktIdx+1 : eqIdx]
 			keyVal := keyString[eqIdx+1 : brktIdx2]
